@@ -28,7 +28,7 @@ EXPLANATION = (
 )
 NOT_DECIDED = ["identity of member content with direct extraction (bytes, decompression correctness of LZMA/LZMA2/deflate)", "7z header parsing arithmetic (pack sizes, substream sizes, file-to-folder map) as values"]
 TRUSTED = ["zipfile.infolist / tarfile.getmembers return members in archive order", "CFG / lexical path conditions"]
-FLOORS = {"C10-EXACT": 8, "C10-CODEC": 6, "C10-LABEL": 10, "C10-ORDER": 4, "C10-SIB": 6, "C10-FOLDER": 1, "C10-DISPATCH": 6}
+FLOORS = {"C10-EXACT": 8, "C10-CODEC": 6, "C10-LABEL": 10, "C10-STEP": 2, "C10-ORDER": 4, "C10-SIB": 6, "C10-FOLDER": 1, "C10-DISPATCH": 6}
 
 READS = {"_extract_from_zip_optimized": ("read", "info"), "_extract_from_tar_optimized": ("extractfile", "member")}  # method that reads one member
 
@@ -192,6 +192,55 @@ def rule_label(ctx: Ctx) -> RuleReport:
                 rep.ok({fnq: "work list entries (member, its name, its base name)"})
             else:
                 rep.fail(Finding("C10-LABEL", ARCH, fnq, short(a), "work-list entries are not (member, its name, its base name)", line=a.lineno))
+    return rep
+
+
+def rule_step(ctx: Ctx) -> RuleReport:
+    """Every member handed to the per-member step reaches the routed extractor, except under the size limit."""
+    rep = RuleReport("C10-STEP", "in the per-member step every normal path reaches `for r in extractor(bytes, path=label): yield r`; the only early exit is the MAX_ARCHIVE_FILE_SIZE test on the member's bytes")
+    pe = ctx.p.func(ARCH, "_process_archive_entry")
+    rep.unit(pe.key)
+    params = [a.arg for a in pe.node.args.args]
+    data = params[1]
+    loops = [l for l in walk_own(pe.node) if isinstance(l, ast.For) and any(isinstance(y, (ast.Yield, ast.YieldFrom)) for y in ast.walk(l))]
+    yf = [y for y in walk_own(pe.node) if isinstance(y, ast.YieldFrom)]
+    if len(loops) + len(yf) != 1:
+        raise AnalysisError("C10-STEP: expected exactly one yielding construct in _process_archive_entry")
+    target = loops[0] if loops else yf[0]
+
+    def size_test(t):
+        names = {n.id for n in ast.walk(t) if isinstance(n, ast.Name)}
+        return isinstance(t, ast.Compare) and len(t.ops) == 1 and isinstance(t.ops[0], (ast.Gt, ast.GtE)) and norm(t.left) == f"len({data})" and norm(t.comparators[0]) == "MAX_ARCHIVE_FILE_SIZE" and names == {"len", data, "MAX_ARCHIVE_FILE_SIZE"}
+
+    def visit(body, guards, in_handler):
+        for st in body:
+            if st is target or (isinstance(st, ast.Expr) and st.value is target):
+                if guards:
+                    rep.fail(Finding("C10-STEP", ARCH, pe.qual, "guarded: " + anorm(guards[-1], pe.node), f"the extraction of a member runs only when `{short(guards[-1], 70)}` holds: members for which it does not are dropped without a result", line=st.lineno))
+                else:
+                    rep.ok({"reaches": short(target, 70)})
+                continue
+            if isinstance(st, (ast.Return, ast.Raise, ast.Continue, ast.Break)) and not in_handler:
+                if len(guards) == 1 and size_test(guards[0]):
+                    rep.ok({"early_exit": short(st, 30), "under": short(guards[0], 60)})
+                else:
+                    g = guards[-1] if guards else None
+                    rep.fail(Finding("C10-STEP", ARCH, pe.qual, "exit: " + (anorm(g, pe.node) if g is not None else "<unconditional>"),
+                                     f"the per-member step leaves at line {st.lineno} (`{short(st, 40)}`) " + (f"when `{short(g, 70)}`" if g is not None else "unconditionally") + " before the member reaches its extractor: a supported member is dropped for a reason other than the size limit", line=st.lineno))
+                continue
+            if isinstance(st, ast.If):
+                visit(st.body, guards + [st.test], in_handler)
+                visit(st.orelse, guards + [ast.UnaryOp(ast.Not(), st.test)], in_handler)
+            elif isinstance(st, ast.Try):
+                visit(st.body, guards, in_handler)
+                for h in st.handlers:
+                    visit(h.body, guards, True)
+                visit(st.orelse, guards, in_handler)
+                visit(st.finalbody, guards, in_handler)
+            elif isinstance(st, (ast.With, ast.For, ast.While)):
+                visit(st.body, guards, in_handler)
+
+    visit(pe.node.body, [], False)
     return rep
 
 
@@ -595,4 +644,4 @@ def rule_codec(ctx: Ctx) -> RuleReport:
     return rep
 
 
-RULES = [rule_label, rule_order, rule_sib, rule_folder, rule_dispatch, rule_exact, rule_codec]
+RULES = [rule_label, rule_step, rule_order, rule_sib, rule_folder, rule_dispatch, rule_exact, rule_codec]
